@@ -282,11 +282,71 @@ func c05Shelley(r *Rand) []byte {
 	case 0, 1, 2, 3, 14, 15:
 		b = append(b, r.Bytes(28)...)
 	case 4, 5:
-		b = append(b, c05VarSloppy(r, c05PtrVal(r))...)
-		b = append(b, c05VarSloppy(r, c05PtrVal(r))...)
-		b = append(b, c05VarSloppy(r, c05PtrVal(r))...)
+		switch r.Intn(4) {
+		case 0:
+			// all three components huge (9-10 byte varints each): the encoded pointer is 27-30 bytes
+			for k := 0; k < 3; k++ {
+				b = append(b, c05Var(c05Huge(r))...)
+			}
+		case 1:
+			// total encoded length of the pointer near the encoder's buffer size: 20..30 bytes,
+			// split at random over the three components
+			for _, l := range c05Split(r, 20+r.Intn(11)) {
+				b = append(b, c05Var(c05WithLen(r, l))...)
+			}
+		default:
+			b = append(b, c05VarSloppy(r, c05PtrVal(r))...)
+			b = append(b, c05VarSloppy(r, c05PtrVal(r))...)
+			b = append(b, c05VarSloppy(r, c05PtrVal(r))...)
+		}
 	}
 	return b
+}
+
+// c05Huge: a value whose minimal varint has 9 or 10 bytes (>= 2^56), boundary-heavy
+func c05Huge(r *Rand) uint64 {
+	edges := []uint64{1 << 56, 1<<56 + 1, 1<<57 - 1, 1<<63 - 1, 1 << 63, 1<<63 + 1, ^uint64(0), ^uint64(0) - 1, ^uint64(0) - 127, ^uint64(0) - 128}
+	if r.Chance(2, 3) {
+		return edges[r.Intn(len(edges))]
+	}
+	return r.U64() | 1<<(56+uint(r.Intn(8)))
+}
+
+// c05WithLen: a value whose minimal varint has exactly l bytes (1..10)
+func c05WithLen(r *Rand, l int) uint64 {
+	if l <= 1 {
+		return uint64(r.Intn(128))
+	}
+	if l >= 10 {
+		return r.U64() | 1<<63
+	}
+	lo := uint64(1) << (7 * uint(l-1))
+	hi := uint64(1) << (7 * uint(l))
+	switch r.Intn(3) {
+	case 0:
+		return lo
+	case 1:
+		return hi - 1
+	}
+	return lo + r.U64()%(hi-lo)
+}
+
+// c05Split: three lengths in 1..10 with the given sum (clamped to 3..30)
+func c05Split(r *Rand, total int) []int {
+	if total < 3 {
+		total = 3
+	}
+	if total > 30 {
+		total = 30
+	}
+	for {
+		a := 1 + r.Intn(10)
+		b := 1 + r.Intn(10)
+		c := total - a - b
+		if c >= 1 && c <= 10 {
+			return []int{a, b, c}
+		}
+	}
 }
 
 func c05Mutate(r *Rand, b []byte) []byte {
